@@ -2,7 +2,7 @@
 import torch
 
 from ..envs import SPECS, episode_cases, py_instance
-from ..play import judge_row, play, violated
+from ..play import judge_row, play, stepwise_reward_check, violated
 from ..runner import Sub
 
 PROPERTY = "C03"
@@ -11,7 +11,11 @@ RULE = (
     "deterministic/stochastic PCTSP) + batch of generator/lattice/float instances + per-row choice streams. "
     "Oracle = objective recomputed in float64 from the original instance and the executed (padded) action "
     "sequence alone; tolerance 1e-5*(1+sum|terms|). Also env.get_reward through rl4co.utils.decoding.rollout "
-    "with the library's random policy, and metamorphic tour reversal / rotation / translation checks. "
+    "with the library's random policy, and metamorphic tour reversal / rotation / translation checks. FJSP/JSSP also with "
+    "stepwise_reward=True (sum of the per-step rewards == -(oracle makespan - largest lower bound of the reset state), "
+    "get_reward(td, actions) still -makespan) and check_mask=True (must never raise); MDCPDP also start_mode='random'. "
+    "dense_tsp: DenseRewardTSPEnv (TorchRL stepping by construction): step reward of every step after the first == length "
+    "of the leg just added (its docstring), get_reward(td, actions) == -closed tour length. "
     "Non-trivial = feasible episode with >=2 routes (or >=3 nodes) and non-zero reward; distinct (case,row) hash."
 )
 ASSUMPTIONS = [
@@ -61,6 +65,10 @@ def execute(case, ctx):
         big = (len(routes) >= 2) if routes is not None else (len(acts) >= 3)
         if big and abs(v.obj) > 0:
             ctx.nontriv({"c": case, "row": b})
+        if name == "mdcpdp":
+            sd, fo = v.meta.get("start_depot"), v.meta.get("first_opened")
+            ctx.event(f"mdcpdp:start_mode={case['cfg'].get('start_mode', 'order')}|reset_depot"
+                      f"{'==' if sd == fo else '!='}first_opened")
     ctx.sample({"env": name, "cfg": case["cfg"], "src": case["src"], "actions_row0": A[0].tolist(),
                 "reward_row0": float(rew[0])})
 
@@ -129,10 +137,13 @@ def execute_sched(case, ctx):
     simulators re-derive the schedule from the actions; FLP/MCP/SMTWTP are closed formulas)."""
     from ..oracles.scheduling import FFSPModel, JobShopModel, judge_flp, judge_mcp, judge_smtwtp
 
-    spec, env, inst, insts, ep = play(case, ctx)
+    stepwise = bool(case["cfg"].get("stepwise"))
+    spec, env, inst, insts, ep = play(case, ctx, keep_states=stepwise)
     name, cfg = case["env"], case["cfg"]
     sl = spec.slice_of(cfg)
     ctx.event(f"env:{name}|{sl}")
+    if cfg.get("check_mask"):
+        ctx.event(f"env:{name}|check_mask=True")
     if ep.dead_end is not None or ep.cap_hit or ep.T == 0:
         return
     A = ep.actions_tensor()
@@ -166,6 +177,10 @@ def execute_sched(case, ctx):
                 obj = -float(max(m.start[mm][j] + m.R[j][mm] for j in range(m.J) for mm in range(m.T) if m.start[mm][j] >= 0))
             else:
                 obj = -max(m.finish[o] for o in m.assign)
+                if stepwise:
+                    # per-step rewards of the stepwise_reward=True env: sum == -(makespan - initial lower bound);
+                    # get_reward(td, actions) (compared below) is still the negative makespan
+                    stepwise_reward_check(ctx, name, sl, ep, b, -obj, {"row": b, "actions": acts, "instance": insts[b]})
             terms = abs(obj)
         else:
             v = {"smtwtp": judge_smtwtp, "flp": judge_flp, "mcp": judge_mcp}[name](insts[b], acts, cfg)
@@ -179,7 +194,75 @@ def execute_sched(case, ctx):
             ctx.nontriv({"c": case, "row": b})
 
 
+def dense_tsp_cases(tier):
+    import hypothesis.strategies as st
+
+    @st.composite
+    def c(draw):
+        case = draw(episode_cases(tier, ["tsp"], max_b=4))
+        case.pop("env_shape", None)
+        case["stepping"] = "torchrl"
+        if case["cfg"]["n"] > 60:
+            case["cfg"]["n"] = 9
+            if case["src"] != "gen":
+                case.update(src="gen")
+                case.pop("lat", None)
+        return case
+    return c()
+
+
+def execute_dense_tsp(case, ctx):
+    """DenseRewardTSPEnv (experimental, exported by rl4co.envs): its docstring defines the step reward as "the distance
+    added to the current tour by the given action" - asserted for every step after the first (the first action adds no
+    leg; what the env reports there is not specified and not asserted); the episode reward get_reward(td, actions) is the
+    negative closed-tour length as for every TSP env.  The sum of the step rewards is NOT asserted (not documented)."""
+    import math
+
+    from rl4co.envs import DenseRewardTSPEnv
+
+    from ..envs import cached_env
+    from ..episode import run_episode_torchrl
+    spec = SPECS["tsp"]
+    cfg = case["cfg"]
+    env = ctx.guard(cached_env, "dense_tsp", cfg, lambda c_: DenseRewardTSPEnv(generator_params=dict(num_loc=c_["n"])),
+                    what="build_env|dense_tsp")
+    inst = ctx.guard(spec.instance, case, what="instance|tsp")
+    B = inst.batch_size[0]
+    insts = [py_instance("tsp", inst[b]) for b in range(B)]
+    rows = case["rows"]
+    modes = [rows[b % len(rows)]["mode"] for b in range(B)]
+    streams = [rows[b % len(rows)]["stream"] for b in range(B)]
+    ep = ctx.guard(run_episode_torchrl, env, inst, modes, streams, cfg["n"] + 3, True, False, what="episode|dense_tsp")
+    ctx.event("env:dense_tsp")
+    if ep.dead_end is not None or ep.cap_hit or ep.T == 0:
+        ctx.violation("dense_tsp||episode_aborted", f"dead end {ep.dead_end} / cap hit {ep.cap_hit}", {"instance": insts})
+        return
+    A = ep.actions_tensor()
+    rew = ctx.guard(env.get_reward, ep.td.clone(), A.clone(), what="get_reward|dense_tsp").reshape(-1).double()
+    for b in range(B):
+        acts = A[b].tolist()
+        v = judge_row({**case, "env": "tsp"}, spec, insts[b], acts)
+        if v.viol:
+            ctx.violation(f"dense_tsp||{v.viol[0][0]}", f"mask-confined episode is not a tour: {acts}", {"row": b, "instance": insts[b]})
+            continue
+        if not close(float(rew[b]), v.obj, v.terms):
+            ctx.violation("dense_tsp||reward_mismatch", f"get_reward {float(rew[b])} != -closed tour length {v.obj}",
+                          {"row": b, "actions": acts, "instance": insts[b]})
+        locs = insts[b]["locs"]
+        for t in range(1, len(acts)):
+            d = math.hypot(locs[acts[t]][0] - locs[acts[t - 1]][0], locs[acts[t]][1] - locs[acts[t - 1]][1])
+            r = float(ep.states[t]["reward"].reshape(B, -1)[b, 0])
+            if abs(r - d) > 1e-5 * (1 + d):
+                ctx.violation("dense_tsp||step_reward_is_not_the_added_distance",
+                              f"row {b} step {t}: reward {r}, leg {acts[t - 1]}->{acts[t]} has length {d}",
+                              {"row": b, "actions": acts, "instance": insts[b]})
+                break
+        if len(acts) >= 3 and B >= 2:
+            ctx.nontriv({"c": case, "row": b})
+
+
 SUBS = [
+    Sub("dense_tsp", execute_dense_tsp, strategy=dense_tsp_cases, budget={"quick": 320, "thorough": 4000}, shards=16),
     Sub("sched_graph", execute_sched, strategy=lambda tier: episode_cases(tier, ["fjsp", "jssp", "ffsp", "smtwtp", "flp", "mcp"]),
         budget={"quick": 2000, "thorough": 30000}, shards=16),
     Sub("episodes", execute, strategy=lambda tier: episode_cases(tier, ENVS),
